@@ -74,6 +74,10 @@ Definition prefixes (p : bytes) : list bytes :=
 
 Inductive fres := FOk (fs : fsT) | FErr.
 
+(* NAME_MAX: no path component longer than 255 bytes can be created *)
+Definition name_max : nat := 255.
+Definition names_fit (p : bytes) : bool := forallb (fun c => (length c <=? name_max)%nat) (psplit p).
+
 (* os.MkdirAll *)
 Fixpoint mkdir_prefixes (fs : fsT) (ps : list bytes) : fres :=
   match ps with
@@ -88,7 +92,9 @@ Fixpoint mkdir_prefixes (fs : fsT) (ps : list bytes) : fres :=
               end
     end
   end.
-Definition mkdir_all (fs : fsT) (p : bytes) : fres := mkdir_prefixes fs (prefixes p).
+Definition mkdir_all (fs : fsT) (p : bytes) : fres :=
+  if is_dir fs p then FOk fs
+  else if names_fit p then mkdir_prefixes fs (prefixes p) else FErr.
 
 (* os.RemoveAll *)
 Definition remove_all (fs : fsT) (p : bytes) : fres :=
@@ -101,7 +107,7 @@ Definition rename (fs : fsT) (a b : bytes) : fres :=
   match lstat fs a with
   | None => FErr
   | Some na =>
-    if negb (is_dir fs (pathdir b)) then FErr
+    if negb (is_dir fs (pathdir b)) || negb (names_fit b) then FErr
     else if at_or_under a b then (if beq a b then FOk fs else FErr)
     else
       let moved := fun fs' => FOk (map (move_entry a b) fs') in
@@ -125,13 +131,13 @@ Definition rename (fs : fsT) (a b : bytes) : fres :=
 Definition symlink (fs : fsT) (link target : bytes) : fres :=
   match lstat fs link with
   | Some _ => FErr
-  | None => if is_dir fs (pathdir link) then FOk (fs ++ [(link, Link target)]) else FErr
+  | None => if is_dir fs (pathdir link) && names_fit link then FOk (fs ++ [(link, Link target)]) else FErr
   end.
 
 (* fs.WriteTextFile: O_RDWR|O_CREATE, no truncation *)
 Definition write_text (fs : fsT) (p c : bytes) : fres :=
   match lstat fs p with
-  | None => if is_dir fs (pathdir p) then FOk (fs ++ [(p, File c)]) else FErr
+  | None => if is_dir fs (pathdir p) && names_fit p then FOk (fs ++ [(p, File c)]) else FErr
   | Some (File old) => FOk (fs_set fs p (File (c ++ skipn (length c) old)))
   | Some _ => FErr
   end.
@@ -139,7 +145,7 @@ Definition write_text (fs : fsT) (p c : bytes) : fres :=
 (* open with O_TRUNC|O_CREATE *)
 Definition open_trunc (fs : fsT) (p : bytes) : fres :=
   match lstat fs p with
-  | None => if is_dir fs (pathdir p) then FOk (fs ++ [(p, File [])]) else FErr
+  | None => if is_dir fs (pathdir p) && names_fit p then FOk (fs ++ [(p, File [])]) else FErr
   | Some (File _) => FOk (fs_set fs p (File []))
   | Some _ => FErr
   end.
